@@ -383,6 +383,24 @@ let run_j () =
     print_endline (Buffer.contents b)
   | r -> print_endline ("parse=" ^ show_res (fun _ -> "") r)
 
+(* stream W: a node table dumped from an implementation graph -> the model's well-formedness checkers
+   (wfb is proved sufficient for wf: GraphCheck.wfb_wf, so C03/C04/C05 apply to this very graph) *)
+let run_w () =
+  let root = next_nat () in
+  let n = next () in
+  let g = List.init n (fun _ ->
+    let k = match next () with
+      | 0 -> KLeaf false | 1 -> KLeaf true
+      | 2 -> KDec (false, false) | 3 -> KDec (false, true) | 4 -> KDec (true, false) | 5 -> KDec (true, true)
+      | _ -> KRef [] in
+    let outs = next_list () in
+    let ni = next () in
+    let ins = List.init ni (fun _ -> let s = next_nat () in let i = next_nat () in (s, i)) in
+    { nkind = k; nid = None; outs = outs; ins = ins }) in
+  print_endline (Printf.sprintf "wf=%d|cons=%d|prod=%d|acyc=%d"
+    (if wfb g root then 1 else 0) (if ins_okb g && outs_okb g then 1 else 0)
+    (if productiveb g then 1 else 0) (if acyclicb g then 1 else 0))
+
 (* stream O: SampleCache histories *)
 let ecls_of_code = function
   | 0 -> EResolveReference | 1 -> EInternal | 2 -> ENormalization | 3 -> EJsonPointer
@@ -458,6 +476,7 @@ let () =
            | "RS" -> run_rs ()
            | "GM" -> run_gm ()
            | "N" -> run_n ()
+           | "W" -> run_w ()
            | "J" -> run_j ()
            | "F" -> run_f ()
            | "O" -> run_o ()
